@@ -112,9 +112,9 @@ def run(repo: Repo, rep: Report, tier: str) -> None:
         cs = calls_in(f.node, "get_iteration_values")
         has = bool(cs) and (kwarg(cs[0], "constant_resolver") is not None or len(cs[0].args) >= 1)
         rep.check(has, "C16-R2", f"{u} takes its values from get_iteration_values with a resolver", norm(cs[0])[:80] if cs else "no call", f.loc(cs[0]) if cs else f.loc())
-        loops = [n for n in walk_local(f.node) if isinstance(n, ast.For) and isinstance(n.iter, ast.Name)]
-        du_u = DefUse(f)
-        fed = any(any(isinstance(x, ast.Call) and call_name(x) == "get_iteration_values" for v in du_u.value_exprs(l.iter.id) for x in ast.walk(v)) for l in loops)
+        cu = canon(f)
+        fed = any(isinstance(n, ast.For) and cu.text(n.iter).endswith(")") and ".get_iteration_values(" in cu.text(n.iter) and cu.text(n.iter).count("(") >= 1
+                  and isinstance(cu.node(n.iter), ast.Call) and call_name(cu.node(n.iter)) == "get_iteration_values" for n in walk_local(f.node))
         rep.check(fed, "C16-R2", f"{u} iterates exactly over those values", "loop iterable is the returned list" if fed else "the unrolling loop does not iterate the returned list", f.loc())
     # no second implementation
     n_other = 0
@@ -146,7 +146,8 @@ def run(repo: Repo, rep: Report, tier: str) -> None:
     mutated = mutated_attrs(repo, rs, repo.func("StatementLowerer.lower_statement"), {inl.qual, lf.qual})
     scoped = sorted(a for a in state if a in mutated and a not in ACCUMULATORS and a != "param_values")
     cfg = CFG(lf.node)
-    outer = [s for s in cfg.stmts() if isinstance(s, ast.For) and isinstance(s.iter, ast.Name)]
+    clf = canon(lf)
+    outer = [s for s in cfg.stmts() if isinstance(s, ast.For) and isinstance(clf.node(s.iter), ast.Call) and call_name(clf.node(s.iter)) == "get_iteration_values"]
     inner = [s for s in cfg.stmts() if isinstance(s, ast.For) and norm(s.iter).endswith(".body")]
     if not outer or not inner:
         raise AnalysisError("C16-R3: unrolling loops not found in lower_for_stmt")
@@ -180,7 +181,8 @@ def run(repo: Repo, rep: Report, tier: str) -> None:
                       f"only the keys of {attr} are saved: `Signal x = ...; for i in 0..2 {{ Signal x = ...; }} Signal y = x + 1;` reads the last iteration's x (and a nested iterator of the same name overwrites the outer one)",
                       lf.loc(restored[0]))
     vf = repo.func("SemanticAnalyzer.visit_ForStmt")
-    vloops = [n for n in walk_local(vf.node) if isinstance(n, ast.For) and isinstance(n.iter, ast.Name)]
+    cvf = canon(vf)
+    vloops = [n for n in walk_local(vf.node) if isinstance(n, ast.For) and isinstance(cvf.node(n.iter), ast.Call) and call_name(cvf.node(n.iter)) == "get_iteration_values"]
     if not vloops:
         raise AnalysisError("C16-R3: per-iteration loop not found in visit_ForStmt")
     vl = vloops[0]
